@@ -49,6 +49,16 @@ inductive FK where
   | ip6
   | algo                   -- `get_string` → `Algorithm.make` (mnemonic or number); printed as a number
   | salt                   -- NSEC3PARAM: `-` or hex
+  | eui (n : Nat)          -- EUI48/EUI64: `get_string`, `aa-bb-…`, n octets
+  | hex16x4                -- NID node id / L64 locator: `get_identifier`, `xxxx:xxxx:xxxx:xxxx`
+  | nsap                   -- NSAP: `get_string`, `0x` + hex (dots ignored)
+  | rdtype                 -- `dns.rdatatype.from_text(tok.get_string())`, printed with `dns.rdatatype.to_text`
+  | algoName               -- CERT: `Algorithm.from_text(get_string)`, printed with `Algorithm.to_text` (mnemonic)
+  | scheme                 -- DSYNC: `Scheme.make(get_string)`, printed with `Scheme.to_text`
+  | ctype                  -- CERT: `_ctype_from_text(get_string)` (exact-case table, else `int()`), `_ctype_to_text`
+  | keyFlags               -- KEY: `as_uint16` of the raw token, else `|`-separated LegacyFlag mnemonics; printed as a number
+  | keyProto               -- KEY: `as_uint8` of the raw token, else a Protocol mnemonic; printed as a number
+  | sigtime                -- RRSIG/SIG: `YYYYMMDDHHMMSS` or seconds
   deriving DecidableEq, Repr
 
 /-- tail kinds -/
@@ -56,6 +66,7 @@ inductive TK where
   | none
   | hex                    -- `concatenate_remaining_identifiers()` → `unhexlify`, styled chunking
   | b64 (fixed0 : Bool)    -- … → `b64decode`; `fixed0`: the type forces chunk size 0
+  | keyB64                 -- KEY: base64 unless the flags say NOKEY (then nothing may follow)
   | txt                    -- TXT-like: one or more character-strings through `unescape_to_bytes`
   | optCstr                -- ISDN subaddress: at most one more string
   deriving DecidableEq, Repr
@@ -76,6 +87,19 @@ decreasing_by omega
 
 def quote (s : List Nat) : List Nat := 34 :: s ++ [34]
 
+def lookupVal (v : Nat) : List (Nat × List Nat) → Option (List Nat)
+  | [] => none
+  | (a, t) :: rest => if a = v then some t else lookupVal v rest
+
+/-- `IntEnum.to_text(value)` / `_ctype_to_text`: the table text, else prefix + decimal -/
+def enumToText (texts : List (Nat × List Nat)) (pfx : List Nat) (v : Nat) : List Nat :=
+  match lookupVal v texts with
+  | some t => t
+  | none => pfx ++ natToDec v
+
+/-- `dns.rdatatype.to_text` -/
+def rdtypeToText (v : Nat) : List Nat := enumToText ConstsC05.typeTexts ConstsC05.typePrefix v
+
 /-- text of one prefix field; `none` = `to_text` raises -/
 def printField (st : Style) : FK → FV → Option Text
   | .uint _, .n v => some (natToDec v)
@@ -89,6 +113,16 @@ def printField (st : Style) : FK → FV → Option Text
   | .ip6, .b a => ip6Ntoa a
   | .algo, .n v => some (natToDec v)
   | .salt, .b s => some (if s = [] then [45] else hexlify s)
+  | .eui _, .b s => some (wordbreak (hexlify s) 2 [45])
+  | .hex16x4, .b s => some (wordbreak (hexlify s) 4 [58])
+  | .nsap, .b s => some (48 :: 120 :: hexlify s)
+  | .rdtype, .n v => some (rdtypeToText v)
+  | .algoName, .n v => some (enumToText ConstsC05.algTexts [] v)
+  | .scheme, .n v => some (enumToText ConstsC05.schemeTexts [] v)
+  | .ctype, .n v => some (enumToText ConstsC05.ctypeByValue [] v)
+  | .keyFlags, .n v => some (natToDec v)
+  | .keyProto, .n v => some (natToDec v)
+  | .sigtime, .n v => some (sigtimeToText v)
   | _, _ => none
 
 def printFields (st : Style) : List FK → List FV → Option (List Text)
@@ -103,6 +137,7 @@ def printTail (st : Style) : TK → Option FV → Option (List Text)
   | .none, none => some []
   | .hex, some (.b d) => some [wordbreak (hexlify d) st.hexChunk st.hexSep]
   | .b64 fixed0, some (.b d) => some [wordbreak (b64Encode d) (if fixed0 then 0 else st.b64Chunk) st.b64Sep]
+  | .keyB64, some (.b d) => some [wordbreak (b64Encode d) st.b64Chunk st.b64Sep]
   | .txt, some (.bl ss) =>
     some [joinSep [32] (ss.map fun s => quote (txtElement st.txtUtf8 ConstsC05.unicodeEscaped Consts.rdataEscaped s))]
   | .optCstr, some (.b s) => some (if s = [] then [] else [quote (escapifyR s)])
@@ -127,6 +162,35 @@ def algoFromText (s : List Nat) : Option Nat :=
   match lookupAssoc u ConstsC05.algMnemonics with
   | some v => some v
   | none => if !u.isEmpty && u.all isDigit then (let v := decVal u; if v ≤ 255 then some v else none) else none
+
+def upperC' (c : Nat) : Nat := if 97 ≤ c ∧ c ≤ 122 then c - 32 else c
+
+def lookupName (k : List Nat) : List (List Nat × Nat) → Option Nat
+  | [] => none
+  | (a, v) :: rest => if a = k then some v else lookupName k rest
+
+/-- `IntEnum.from_text(text)` for an enum without extras: upper-case, member name, else prefix + decimal ≤ max -/
+def enumFromText (names : List (List Nat × Nat)) (pfx : List Nat) (max : Nat) (s : List Nat) : Option Nat :=
+  let u := s.map upperC'
+  match lookupName u names with
+  | some v => some v
+  | none =>
+    if u.take pfx.length = pfx ∧ !(u.drop pfx.length).isEmpty ∧ (u.drop pfx.length).all isDigit then
+      let v := decVal (u.drop pfx.length)
+      if v ≤ max then some v else none
+    else none
+
+/-- `dns.rdatatype.from_text`: member names (`NSAP_PTR`), the dashed spelling (`NSAP-PTR`), then `TYPEnnn` -/
+def rdtypeFromText (s : List Nat) : Option Nat :=
+  let u := s.map upperC'
+  match lookupName u ConstsC05.typeNames with
+  | some v => some v
+  | none =>
+    let dashed : Option Nat :=
+      if u.contains 45 then lookupName (u.map fun c => if c = 45 then 95 else c) ConstsC05.typeNames else none
+    match dashed with
+    | some v => if v ≠ 0 then some v else enumFromText [] ConstsC05.typePrefix 65535 s
+    | none => enumFromText [] ConstsC05.typePrefix 65535 s
 
 /-- `tok.get_string(max_length)`: unescaped *code points* of an identifier or quoted string (still used by GPOS,
 NSEC3PARAM's salt, mnemonics …; the character-string fields moved to `asStringBytes`) -/
@@ -159,6 +223,73 @@ def encodeMax (maxBytes : Option Nat) (v : List Nat) : Option Bytes :=
     | some m => if b.length > m then none else some b
     | none => some b
 
+/-- the dash positions 2, 5, 8, … of an EUI text -/
+def euiDashesOk (v : List Nat) (n : Nat) : Bool :=
+  (List.range (n - 1)).all fun i => v[3 * i + 2]? == some 45
+
+def parseFieldExtra : FK → Tok → Option FV
+  | .eui n, t => match unescapeCP t.val with
+    | some v =>
+      if v.length ≠ 3 * n - 1 then none
+      else if !euiDashesOk v n then none
+      else match unhexlify (v.filter (· ≠ 45)) with
+        | some d => if d.length = n then some (.b d) else none
+        | none => none
+    | none => none
+  | .hex16x4, t => if t.kind ≠ .ident then none else match unescapeCP t.val with
+    | some v => (parseFormattedHex4 v).map .b
+    | none => none
+  | .nsap, t => match unescapeCP t.val with
+    | some v =>
+      if v.take 2 ≠ [48, 120] then none
+      else
+        let h := (v.drop 2).filter (· ≠ 46)
+        if h.length % 2 ≠ 0 then none else (unhexlify h).map .b
+    | none => none
+  | .rdtype, t => match unescapeCP t.val with
+    | some v => (rdtypeFromText v).map .n
+    | none => none
+  | .algoName, t => match unescapeCP t.val with
+    | some v => (enumFromText ConstsC05.algMnemonics [] 255 v).map .n
+    | none => none
+  | .scheme, t => match unescapeCP t.val with
+    | some v => (enumFromText ConstsC05.schemeNames [] 255 v).map .n
+    | none => none
+  | .ctype, t => match unescapeCP t.val with
+    | some v => match lookupName v ConstsC05.ctypeByName with
+      | some x => some (.n x)
+      | none => match pyInt 10 v with
+        | some (neg, n) => if (neg ∧ n ≠ 0) ∨ n > 65535 then none else some (.n n)
+        | none => none
+    | none => none
+  | .keyFlags, t =>
+    -- `tok.as_uint16(token)` on the raw token value, else mnemonics
+    let direct : Option Nat :=
+      if t.kind ≠ .ident then none
+      else match pyInt 10 t.val with
+        | some (neg, n) => if (neg ∧ n ≠ 0) ∨ n > 65535 then none else some n
+        | none => none
+    match direct with
+    | some n => some (.n n)
+    | none =>
+      let parts := splitOn 124 t.val
+      (parts.foldl (fun acc p => match acc, lookupName p ConstsC05.keyFlagNames with
+        | some a, some v => some (a ||| v)
+        | _, _ => none) (some 0)).map .n
+  | .keyProto, t =>
+    let direct : Option Nat :=
+      if t.kind ≠ .ident then none
+      else match pyInt 10 t.val with
+        | some (neg, n) => if (neg ∧ n ≠ 0) ∨ n > 255 then none else some n
+        | none => none
+    match direct with
+    | some n => some (.n n)
+    | none => (lookupName t.val ConstsC05.keyProtoNames).map .n
+  | .sigtime, t => match unescapeCP t.val with
+    | some v => (sigtimeFromText v).map .n
+    | none => none
+  | _, _ => none
+
 def parseField (env : PEnv) : FK → Tok → Option FV
   | .uint max, t => (asUint 10 max t).map .n
   | .oct16, t => (asUint 8 65535 t).map .n
@@ -182,6 +313,7 @@ def parseField (env : PEnv) : FK → Tok → Option FV
       | some b => if b.length > 255 then none else some (.b b)
       | none => none
     | none => none
+  | k, t => parseFieldExtra k t
 
 def parseFields (env : PEnv) : List FK → List Tok → Option (List FV × List Tok)
   | [], toks => some ([], toks)
@@ -196,8 +328,18 @@ def parseTxt : List Tok → Option (List Bytes)
     | some b, some r => if b.length > 255 then none else some (b :: r)
     | _, _ => none
 
-def parseTail : TK → List Tok → Option (Option FV)
+/-- KEY: "if the type flags field has the NOKEY value, nothing appears after the algorithm octet" -/
+def keyIsNoKey : List FV → Bool
+  | .n flags :: _ => flags / 16384 % 4 == 3
+  | _ => false
+
+def parseTail (vals : List FV) : TK → List Tok → Option (Option FV)
   | .none, toks => if toks = [] then some none else none
+  | .keyB64, toks =>
+    if keyIsNoKey vals then (if toks = [] then some (some (.b [])) else none)
+    else match concatIdents false toks with
+      | some s => (b64Decode s).map fun b => some (.b b)
+      | none => none
   | .hex, toks => match concatIdents false toks with
     | some s => (unhexlify s).map fun b => some (.b b)
     | none => none
@@ -217,7 +359,7 @@ def parseTail : TK → List Tok → Option (Option FV)
 def parseRec (sch : Schema) (env : PEnv) (toks : List Tok) : Option (List FV × Option FV) :=
   match parseFields env sch.fields toks with
   | none => none
-  | some (vals, rest) => match parseTail sch.tail rest with
+  | some (vals, rest) => match parseTail vals sch.tail rest with
     | none => none
     | some tail => if sch.check vals tail then some (vals, tail) else none
 
@@ -283,13 +425,21 @@ def schemaOf : String → Option Schema
   | "L32" => some ⟨[u16, .ip4], .none, noCheck, true⟩
   | "NSEC3PARAM" => some ⟨[u8, u8, u16, .salt], .none, noCheck, true⟩
   | "CH-A" => some ⟨[.name, .oct16], .none, noCheck, true⟩
+  | "EUI48" => some ⟨[.eui 6], .none, noCheck, true⟩
+  | "EUI64" => some ⟨[.eui 8], .none, noCheck, true⟩
+  | "NID" | "L64" => some ⟨[u16, .hex16x4], .none, noCheck, true⟩
+  | "NSAP" => some ⟨[.nsap], .none, noCheck, true⟩
+  | "CERT" => some ⟨[.ctype, u16, .algoName], .b64 false, noCheck, true⟩
+  | "DSYNC" => some ⟨[.rdtype, .scheme, u16, .name], .none, noCheck, true⟩
+  | "KEY" => some ⟨[.keyFlags, .keyProto, .algo], .keyB64, noCheck, true⟩
+  | "RRSIG" | "SIG" => some ⟨[.rdtype, .algo, u8, .ttl, .sigtime, .sigtime, u16, .name], .b64 false, noCheck, true⟩
   | _ => none
 
 def modelledTypes : List String :=
   ["A", "AAAA", "NS", "CNAME", "PTR", "DNAME", "NSAP-PTR", "MX", "AFSDB", "RT", "KX", "LP", "PX", "SRV", "RP", "SOA",
    "TXT", "SPF", "AVC", "NINFO", "RESINFO", "WALLET", "HINFO", "X25", "ISDN", "NAPTR", "CAA", "URI", "DS", "DLV", "CDS",
    "TLSA", "SMIMEA", "SSHFP", "ZONEMD", "DNSKEY", "CDNSKEY", "DHCID", "OPENPGPKEY", "BRID", "HHIT", "L32", "NSEC3PARAM",
-   "CH-A"]
+   "CH-A", "EUI48", "EUI64", "NID", "L64", "NSAP", "CERT", "DSYNC", "KEY", "RRSIG", "SIG"]
 
 /-! ## wire form of the schema fields (needed by the generic syntax of known types) -/
 
@@ -319,6 +469,16 @@ def encField (origin : Option Name) : FK → FV → Option Bytes
   | .ip6, .b a => some a
   | .algo, .n v => some [v]
   | .salt, .b s => some (s.length :: s)
+  | .eui _, .b s => some s
+  | .hex16x4, .b s => some s
+  | .nsap, .b s => some s
+  | .rdtype, .n v => some (beBytes 2 v)
+  | .algoName, .n v => some [v]
+  | .scheme, .n v => some [v]
+  | .ctype, .n v => some (beBytes 2 v)
+  | .keyFlags, .n v => some (beBytes 2 v)
+  | .keyProto, .n v => some [v]
+  | .sigtime, .n v => some (beBytes 4 v)
   | _, _ => none
 
 /-- CAA's value and URI's target are not length-prefixed: they are the rest of the rdata -/
@@ -341,6 +501,7 @@ def encTail : TK → Option FV → Option Bytes
   | .none, none => some []
   | .hex, some (.b d) => some d
   | .b64 _, some (.b d) => some d
+  | .keyB64, some (.b d) => some d
   | .txt, some (.bl ss) => some (ss.flatMap fun s => s.length :: s)
   | .optCstr, some (.b s) => some (if s = [] then [] else s.length :: s)
   | _, _ => none
@@ -389,6 +550,12 @@ def decFields (tname : String) (w : Bytes) (origin : Option Name) : Nat → Nat 
       | .ip4 => -- `parser.get_remaining()` then `inet_ntoa` needs exactly 4 octets
         if w.length - cur = 4 ∧ cur ≤ w.length then some (.b (w.drop cur), w.length) else none
       | .ip6 => if w.length - cur = 16 ∧ cur ≤ w.length then some (.b (w.drop cur), w.length) else none
+      | .eui n => if cur + n ≤ w.length then some (.b ((w.drop cur).take n), cur + n) else none
+      | .hex16x4 => if w.length - cur = 8 ∧ cur ≤ w.length then some (.b (w.drop cur), w.length) else none
+      | .nsap => if cur ≤ w.length then some (.b (w.drop cur), w.length) else none
+      | .rdtype | .ctype | .keyFlags => if cur + 2 ≤ w.length then some (.n (beVal ((w.drop cur).take 2)), cur + 2) else none
+      | .algoName | .scheme | .keyProto => if cur + 1 ≤ w.length then some (.n (beVal ((w.drop cur).take 1)), cur + 1) else none
+      | .sigtime => if cur + 4 ≤ w.length then some (.n (beVal ((w.drop cur).take 4)), cur + 4) else none
     match one with
     | none => none
     | some (v, cur') => match decFields tname w origin (i + 1) cur' ks with
@@ -408,6 +575,7 @@ def decTail (w : Bytes) (cur : Nat) : TK → Option (Option FV)
   | .none => if cur = w.length then some none else none
   | .hex => some (some (.b (w.drop cur)))
   | .b64 _ => some (some (.b (w.drop cur)))
+  | .keyB64 => some (some (.b (w.drop cur)))
   | .txt => match decCstrs w (w.length + 1) cur with
     | some ss => if ss = [] then none else some (some (.bl ss))
     | none => none
